@@ -35,6 +35,7 @@ import (
 	"github.com/nuts-foundation/go-did/vc"
 	"github.com/nuts-foundation/nuts-node/core"
 	"github.com/nuts-foundation/nuts-node/core/to"
+	"github.com/nuts-foundation/nuts-node/discovery/api/server/client"
 	"github.com/nuts-foundation/nuts-node/storage"
 	"github.com/nuts-foundation/nuts-node/test"
 	"github.com/nuts-foundation/nuts-node/vcr"
@@ -144,7 +145,20 @@ func (a vAdapter) Register(ctx context.Context, _ string, presentation vc.Verifi
 	return a.w.server.Register(ctx, vSvc, presentation)
 }
 func (a vAdapter) Get(ctx context.Context, _ string, timestamp int) (map[string]vc.VerifiablePresentation, string, int, error) {
-	return a.w.server.Get(ctx, vSvc, timestamp)
+	ps, seed, ts, err := a.w.server.Get(ctx, vSvc, timestamp)
+	if err != nil {
+		return nil, "", 0, err
+	}
+	// what api/server/api.go sends and api/server/client/http.go decodes: the JSON form of the response
+	body, err := json.Marshal(client.PresentationsResponse{Entries: ps, Seed: seed, Timestamp: ts})
+	if err != nil {
+		return nil, "", 0, err
+	}
+	var res client.PresentationsResponse
+	if err := json.Unmarshal(body, &res); err != nil {
+		return nil, "", 0, err
+	}
+	return res.Entries, res.Seed, res.Timestamp, nil
 }
 
 func vDefinition(r vDefRecipe) ServiceDefinition {
@@ -574,7 +588,20 @@ func (r *vRunner) exec(op vOp, src func() (vOp, bool)) {
 	case "register":
 		b := w.build(*op.Recipe)
 		op.VP = b.model
-		cls := vRecover(func() error { return w.server.Register(ctx, vSvc, b.vp) })
+		sent := b.vp
+		if b.vp.Raw() != "" {
+			// what http.go posts and the API wrapper decodes
+			body, err := json.Marshal(b.vp)
+			if err != nil {
+				r.t.Fatal(err)
+			}
+			var back vc.VerifiablePresentation
+			if err := json.Unmarshal(body, &back); err != nil {
+				r.t.Fatal(err)
+			}
+			sent = back
+		}
+		cls := vRecover(func() error { return w.server.Register(ctx, vSvc, sent) })
 		r.emit(op, w.observe(cls, op.Now))
 	case "reset":
 		if err := vTables(r.engS.GetSQLDatabase()); err != nil {
